@@ -264,7 +264,8 @@ func TestC05Rapid(t *testing.T) {
 	}
 	journal := harness.OpenJournal()
 	runRapid(t, uC05, func(rt *rapid.T) {
-		doc := xgen.Doc(rt, xgen.DefaultDoc())
+		shapedOpts, _ := xgen.Shaped(rt, xgen.DefaultDoc())
+		doc := xgen.Doc(rt, shapedOpts)
 		ctx := xgen.Context(rt, doc, 4)
 		g := xgen.NewG(rt, doc)
 		var e xast.Expr
